@@ -46,7 +46,11 @@ ASSUMPTIONS = [
 ]
 
 PEPS = ["ACDEFGK", "LMNPQSK", "TVWYACK", "DEFGHIK", "LMNPQTR", "VWYACDK", "EFGHILK", "MNPQSTR", "WYACDEK", "FGHILMK",
-        "NPQSTVR", "YACDEFK", "GHILMNK", "PQSTVWR", "ACDEGFK", "ACEDFGK"]  # the last two are anagrams of the first
+        "NPQSTVR", "YACDEFK", "GHILMNK", "PQSTVWR", "ACDEGFK", "ACEDFGK",  # the last two are anagrams of the first
+        "LMNPSQK", "LMPNQSK", "TVWAYCK", "TWVYACK"]  # anagrams of the 2nd and 3rd: random decoy matching has choices
+
+
+PROT_OF = [0, 0, 0, 1, 1, 1, 2, 2, 2, 3, 3, 3, 4, 4, 4, 5, 6, 7, 6, 7]
 
 
 def decoy_of(p):
@@ -58,6 +62,8 @@ def fasta_text(with_decoys):
     for i in range(5):
         prots.append((f"sp|P{i}|X{i}", "".join(PEPS[3 * i: 3 * i + 3])))
     prots.append(("sp|P5|X5", PEPS[15]))  # anagram peptides live in different proteins
+    prots.append(("sp|P6|X6", PEPS[16] + PEPS[18]))
+    prots.append(("sp|P7|X7", PEPS[17] + PEPS[19]))
     out = [f">{n} desc\n{s}" for n, s in prots]
     if with_decoys:
         out += [f">decoy_{n} desc\n" + "".join(decoy_of(s[j:j + 7]) for j in range(0, len(s), 7)) for n, s in prots]
@@ -76,8 +82,8 @@ def table():
                 cls = (("H" if (i + j) % 4 != 3 else "L") if i < 9 else "L") if is_t else "D"
                 key = {"H": 100.0, "D": 10.0, "L": 9.905}[cls] + r * 0.01
                 rows.append(dict(SpecId=f"s{r}", Label=1 if is_t else -1, ScanNr=100 + r // 2 + (7 if j == 1 else 0), ExpMass=700.5 + i,
-                                 f_key=round(key, 3), f2={"H": 3.0, "D": 1.0, "L": 1.0}[cls] + float((r * 7919) % 101) / 500.0, f3=float((r * 31) % 17) / 10.0,
-                                 Peptide=f"K.{p}.A", Proteins=("" if is_t else "decoy_") + f"sp|P{min(i // 3, 5)}|X{min(i // 3, 5)}"))
+                                 f_key=round(key, 3), f2=1.0 + float((r * 7919) % 101) / 500.0, f3=float((r * 31) % 17) / 10.0,
+                                 Peptide=f"K.{p}.A", Proteins=("" if is_t else "decoy_") + f"sp|P{PROT_OF[i]}|X{PROT_OF[i]}"))
                 r += 1
     # a second PSM for some spectra (competition) and enough rows for three folds
     return pd.DataFrame(rows)
@@ -91,7 +97,7 @@ def digest_files(d):
     return out
 
 
-def analysis(case, work, models_in=None):
+def analysis(case, work, models_in=None, proteins=None):
     """One complete analysis; returns a JSON-able digest."""
     import mokapot
     from mokapot.confidence import assign_confidence
@@ -154,7 +160,9 @@ def analysis(case, work, models_in=None):
     if models_in is None and case.get("fasta", "none") != "none":
         fa = work / "db.fasta"
         fa.write_text(fasta_text(case["fasta"] == "decoys"))
-        proteins = mokapot.read_fasta(fa, missed_cleavages=0, min_length=6)
+        if proteins is None:
+            proteins = mokapot.read_fasta(fa, missed_cleavages=0, min_length=6)
+        dig["_proteins"] = proteins
         dig["fasta"] = {
             "peptide_map": sorted((k, tuple(sorted(v.split(", ")))) for k, v in proteins.peptide_map.items()),
             "shared": sorted((k, tuple(sorted(tuple(sorted(g.split(", "))) for g in v.split("; ")))) for k, v in proteins.shared_peptides.items()),
@@ -176,13 +184,13 @@ def analysis(case, work, models_in=None):
     return dig
 
 
-def safe_analysis(case, work, models_in=None):
+def safe_analysis(case, work, models_in=None, proteins=None):
     """analysis(), but one of mokapot's explicit refusals becomes part of the digest (it must then be the same
     refusal in every variant); crashes propagate."""
     from mc.core import classify_exception
 
     try:
-        return analysis(case, work, models_in)
+        return analysis(case, work, models_in, proteins)
     except Exception as e:
         if classify_exception(e)[0] != "explicit_error":
             raise
@@ -256,6 +264,16 @@ def check_case(case, acc, hashseeds=(0, 1, 2, 3, 4, 5, 6, 7)):
             pass
         again = safe_analysis(case, work / "b")
         cmp("same-process-repeat", ref, again, "after-another-analysis")
+        # one Proteins object (read_fasta result) re-used for several analyses in this process
+        if not case.get("cli") and case.get("fasta", "none") != "none":
+            shared = safe_analysis(other, work / "s0").get("_proteins")
+            if shared is not None:
+                got = safe_analysis(case, work / "s1", proteins=shared)
+                g2 = dict(got)
+                g2.pop("fasta", None)
+                r2 = dict(ref)
+                r2.pop("fasta", None)
+                cmp("shared-proteins-object", r2, g2, "proteins object used by an earlier analysis with another seed")
         # worker count
         if not case.get("cli"):
             w = safe_analysis(dict(case, workers=3 if case["workers"] == 1 else 1), work / "w")
